@@ -61,7 +61,7 @@ func emitSeqInit(c *Config, kind string, reg *regTable, ops []op) {
 	if isChained && !strings.HasSuffix(kind, "-chained") {
 		kind += "-chained"
 	}
-	c.Emit(T("kind", A(kind)), T("nt", B(nt)), reg.sx(), T("ops", os...), T("obs", obs...))
+	c.Emit(append([]Sx{T("kind", A(kind)), T("nt", B(nt))}, append(worldField(), reg.sx(), T("ops", os...), T("obs", obs...))...)...)
 }
 
 func synthOp(kind string, s spec) op { return op{kind: kind, sp: s} }
